@@ -430,6 +430,22 @@ func hostileScript(rnd *rand.Rand, mu *sync.Mutex) func(a *fakecql.Attempt) fake
 		switch class {
 		case "b_unknown_stream":
 			return fakecql.Outcome{Kind: fakecql.RawReply, Raw: rawFrame(ver, 0, st+1000, 0x08, []byte{0, 0, 0, 1}, 4)}
+		case "b_bad_event_on_control":
+			// the request is answered; meanwhile a malformed EVENT frame arrives on the control connection (the one that
+			// sent REGISTER): truncated body, unknown event type, garbage after the type, empty body
+			if cc := a.Node.C.ControlConn(); cc != nil {
+				str := func(s string) []byte { return append([]byte{byte(len(s) >> 8), byte(len(s))}, s...) }
+				bodies := [][]byte{
+					append(str("STATUS_CHANGE"), str("UP")...),
+					append(str("BOGUS_EVENT"), 1, 2, 3),
+					append(str("SCHEMA_CHANGE"), 0xff, 0xfe, 0xfd),
+					{},
+					append(str("TOPOLOGY_CHANGE"), append(str("NEW_NODE"), 0x04, 127)...),
+				}
+				body := bodies[rnd.Intn(len(bodies))]
+				cc.WriteRaw(rawFrame(byte(cc.Version)|0x80, 0, -1, 0x0C, body, int32(len(body))))
+			}
+			return fakecql.Outcome{Kind: fakecql.OK}
 		case "b_unsolicited_result":
 			// the request is answered, and a second RESULT arrives on a stream nobody is waiting on (before or after it):
 			// afterwards the backend connection is idle with that frame consumed
